@@ -117,6 +117,19 @@ MISSED_FIRST = {
  "C01g-2": "needs the Alt log format and a relative smooth quadratic (C05 caught it); an eighth of C01's transcoding hops now go through the logger",
  "C18g-1": "needs two graphics of the same length in one reused buffer (a memo keyed by address and length); C18's viewBox tasks now do that and compare with the same bytes in a slice of their own",
  "C18g-2": "needs a shared stop list with two stops at one offset given to Gradient.Init; added to C18's helper tasks",
+ "C15h-2": "needs a reflected gradient offset of magnitude 2^63 or more; C15's exact matrices now reach 2^100 (every such offset is an even whole number of periods)",
+ "C20h-1": "needs mdicons.ParseFile itself with circles and a first path from the converter's table of left-out paths; C20 got a whole-icon sub-monitor that writes SVG documents to scratch files and compares the literal ParseFile writes with the composition of its paths and circles",
+ "C20h-2": "needs ParseFile and a table path with another fill attribute; same sub-monitor",
+ "C04h-1": "needs a DecodeOption written by the caller (an exported function type) that puts a nonsensical colour into the palette; C14's option lists now contain such options (caught by C14, whose text it breaks)",
+ "C10h-1": "needs the exported resolution field assigned inside an open path (C01 caught it); half of C10's random histories now assign the field at arbitrary moments and the model latches it at StartPath",
+ "C10h-2": "needs the same plus a close-and-move inside that path; same",
+ "C17h-2": "needs history A to be graphic B itself in another colour theme (same calls, same number of register writes, byte-identical gradient descriptor, other palette) decoded into the same rectangle; a sixth of C17's renderer pairs are now that",
+ "C01h-2": "needs a viewBox equal to the default in three coordinates; the shared viewBox generator now produces the default with one coordinate changed",
+ "C02h-2": "needs the rasterizer behind raster.RasterizerLogger and a gradient-filled path; a sixteenth of C02's Renderer passes now go through that wrapper",
+ "C02h-3": "needs Decode into a DestinationLogger that wraps nothing; added to C02 for a thirty-second of its inputs",
+ "C18h-1": "needs mdicons.ParseFile over several documents whose path elements carry optional attributes at the same positions; C18 got a ParseFile pipeline over shared documents on disk, each result compared with the graphic its document spells",
+ "C06h-1": "needs a target of 4096 pixels or more in height and an arc of more than half a turn; a tenth of C06's targets are now 1024..16384 pixels in each direction",
+ "C07h-2": "needs a directly driven Renderer that is given its rasterizer after Reset (C06 and C19 caught it); a quarter of C07's direct pipelines now do that",
  "C20-2": "SetTransform was called once with literals; C20 now configures the generator twice from a caller-held slice and checks that the slice is unchanged",
 }
 
